@@ -18,7 +18,7 @@ from __future__ import annotations
 
 import ast
 
-from ..dispatch import Slicer, flat
+from ..dispatch import Cond, Slicer, flat
 from ..guards import BENIGN_VERBS, REQUIRED, UNREACHABLE_IN_BENIGN, covers, parse_guards
 from ..model import model_of
 from ..siblings import get_siblings
@@ -129,6 +129,7 @@ def run(chk, rules=None, as_prop=None):
                    f"the SQL slice of `{v.name}` writes query.{f} but Cache.update does not record `{MIRRORS[f]}`: later verbs "
                    "are not told that the SELECT already has this clause, so the guards cannot fire")  # fmt: skip
     chk.floor("G2", "mirrored query-field writes", n_g2, 4)
+    _join_filter_flag(chk, sym, sib)
     mk = sym.cls("SubqueryMarker")
     c_items = Slicer(sym, cfg_cache.module, cfg_cache.subject, mk).slice(cfg_cache.func.body)
     reset = {}
@@ -274,3 +275,49 @@ def _check_subquery(chk, sym):
                        f"`{norm(a)[:70]}` fails for the caller `{fn}`, which passes a {built} node with is_right=True: an alias "
                        "placed to allow the subquery leads to an AssertionError instead of acceptance")  # fmt: skip
     chk.floor("G6", "is_right callers of check_subquery", len(callers), 2)
+
+
+def _join_filter_flag(chk, sym, sib):
+    """G2 for Join, value-level (A9 over `how` x which input is filtered): whenever the SQL Join slice leaves
+    predicates in the WHERE of the joined SELECT, the Cache.update slice must set is_filtered to True -
+    otherwise `full join with a filtered table` / window-after-filter guards never see the filter."""
+    from ..flags import Evaluator, Unsupported, all_tags, is_conc
+
+    cfg_sql, cfg_cache = sib.cfgs["sql"], sib.cfgs["cache"]
+    jc = sym.cls("Join")
+    s_items = Slicer(sym, cfg_sql.module, cfg_sql.subject, jc).slice(cfg_sql.func.body)
+    c_items = Slicer(sym, cfg_cache.module, cfg_cache.subject, jc).slice(cfg_cache.func.body)
+    stmts_s = [it.node if isinstance(it, Cond) else it for it in s_items]
+    stmts_c = [it.node if isinstance(it, Cond) else it for it in c_items]
+    res = cfg_cache.outputs["SEL"].split(".")[0]
+    n = 0
+    for how in ("inner", "left", "full"):
+        ev = Evaluator({f"{cfg_sql.subject}.how": how})
+        ev.skip_loops = True
+        try:
+            outs = ev.run_block(stmts_s)
+        except Unsupported as u:
+            raise AnalysisError(f"C08/G2: cannot evaluate the SQL Join branch: {u}") from u
+        right_in_where = any(("call", "extend") in (all_tags(env.get("query.where")) if env.get("query.where") is not None else frozenset()) for _, env, _ in outs)
+        # the left WHERE is the running query.where itself: it always stays unless the slice clears it
+        for left_f, right_f in ((True, False), (False, True), (False, False)):
+            sql_filtered = left_f or (right_f and right_in_where)
+            evc = Evaluator({f"{cfg_cache.subject}.how": how, "self.is_filtered": left_f, "right_cache.is_filtered": right_f, f"{res}.is_filtered": left_f})
+            evc.skip_loops = True
+            evc.lenient = True
+            try:
+                couts = evc.run_block(stmts_c)
+            except Unsupported as u:
+                raise AnalysisError(f"C08/G2: cannot evaluate the Cache.update Join branch: {u}") from u
+            for _, env, _ in couts:
+                n += 1
+                v = env.get(f"{res}.is_filtered")
+                label = f"Join how={how}, left filtered={left_f}, right filtered={right_f}: SQL WHERE non-empty={sql_filtered}"
+                if sql_filtered:
+                    chk.ob("G2", cfg_cache.module, cfg_cache.func, label, is_conc(v) and v is True,
+                           f"{label}, but Cache.update records is_filtered={v!r}: the joined SELECT carries a WHERE the guards "
+                           "(`full join with a filtered table`, window after filter, ...) are not told about")  # fmt: skip
+                elif not left_f and not right_f:
+                    chk.ob("G2", cfg_cache.module, cfg_cache.func, label, is_conc(v) and not v,
+                           f"{label}, but Cache.update records is_filtered={v!r}: an unfiltered join would be refused / forced into a subquery")  # fmt: skip
+    chk.floor("G2", "join filter-flag valuations", n, 9)
